@@ -12,40 +12,71 @@ from typing import Any, Dict, Iterator, List, Optional, Sequence, Tuple
 from ..core import Ctx
 
 THEOREMS = [
-    "Signature.roundtrip_args", "Signature.roundtrip", "Signature.default_alignment",
-    "Signature.build_eq_spec", "Signature.valid_always", "Signature.valid_iff_nodup",
-    "Signature.duplicate_counterexample", "Signature.build_total", "Signature.overloads_own",
-    "Signature.overloads_displayed", "Signature.render_layout", "Signature.parseSig_render_layout",
+    # round trip of the displayed signature
+    "Signature.roundtrip_args", "Signature.roundtrip", "Signature.render_layout", "Signature.parseSig_render_layout",
+    # construction of the parameter list
+    "Signature.build_eq_spec", "Signature.build_shape", "Signature.build_total", "Signature.default_alignment",
+    "Signature.default_alignment_parser",
+    # inspect.Signature's validation / the ValueError branch
+    "Signature.valid_always", "Signature.valid_iff_nodup", "Signature.duplicate_counterexample",
+    # unstring_annotation
+    "Signature.unstring_only_quotes", "Signature.unstring_result", "Signature.unstring_idempotent",
+    "Signature.literal_args_verbatim", "Signature.other_subscript_unquoted", "Signature.unstring_failure_in_place",
+    # which defs get a signature, overload recognition
+    "Signature.overload_by_resolution", "Signature.property_iff", "Signature.module_level_function",
+    # overload bookkeeping and what the page shows
+    "Signature.overloads_own", "Signature.overloads_displayed", "Signature.records_sound", "Signature.never_broken",
+    "Signature.shownName_spec",
 ]
-RULE = ("exhaustive: every sequence of <=4 (quick: <=3) parameter items over {name, *name, **name} x with/without "
-        "annotation x with/without default, with `/` and bare `*` placed at every position, written as "
-        "`def f(<items>) [-> r | -> None]: pass`; those ast.parse accepts go through the real pipeline (System, "
-        "systemBuilder, addModuleString, buildModules, Function.signature, pages.format_signature / format_function_def / "
-        "format_overloads, flatten_text) and are compared with the Lean model (parameter objects, display tokens, "
-        "ValueError branch) and judged by the direct oracle: ast.parse('def f' + displayed + ': pass') must give the "
-        "same ast.arguments/returns as the source (names, kinds, order, default positions; ast.dump of defaults and of "
-        "annotations after unquoting string annotations; a `-> None` may be missing). ALL candidate texts (accepted "
-        "or not) are also read by the model's parser and compared with CPython's verdict. Plus methods/classmethods/"
-        "staticmethods/async defs, @overload groups with the decorator spelled in every way that resolves to typing.overload / typing_extensions.overload (bare, dotted module, module alias, renamed import, class-local import) and two look-alikes that do not, string annotations, duplicate names (ValueError branch, "
-        "correspondence only), random signatures of 5-10 parameters with small expression defaults/annotations. "
-        "Non-trivial = at least two different parameter kinds, or a default after a positional-only marker.")
+PARTIAL: Dict[str, str] = {}
+RULE = ("FIRST a deterministic corpus (the shapes of all five seeded C14 changes: aliased @overload, annotated positional-only "
+        "parameters, a string annotation shared under an operator, right operands of equal precedence, Literal reached through "
+        "a module alias; direct oracle only) and the format_signature fallbacks. Then exhaustive: every sequence of <=4 "
+        "(quick: <=3) parameter items over {name, *name, **name} x with/without annotation x with/without default, with `/` "
+        "and bare `*` placed at every position, written as `def f(<items>) [-> r | -> None]: pass`; those ast.parse accepts go "
+        "through the real pipeline (System, systemBuilder, addModuleString, buildModules, Function.signature, "
+        "pages.format_signature / format_function_def / format_overloads, flatten_text) and are compared with the Lean model "
+        "(parameter objects, display tokens, ValueError branch) and judged by the direct oracle: ast.parse('def f' + displayed "
+        "+ ': pass') must give the same ast.arguments/returns as the source (names, kinds, order, default positions; ast.dump "
+        "of defaults and of annotations after unquoting string annotations on both sides, Literal[...] arguments left alone; a "
+        "`-> None` may be missing). ALL candidate texts (accepted or not) are also read by the model's parser and compared "
+        "with CPython's verdict. Plus methods/classmethods/staticmethods/async defs; @overload groups with the decorator "
+        "spelled in every way that resolves to typing.overload / typing_extensions.overload (bare, dotted module, module "
+        "alias, renamed import, class-local import) and two look-alikes that do not; string / Literal annotations in every "
+        "parameter position; duplicate names (ValueError branch, correspondence only); random signatures of 5-10 parameters "
+        "with small expression defaults/annotations; astutils.unstring_annotation called directly on every annotation tree of "
+        "depth <=2 over {name, Literal, None, string, non-expression string, attribute, subscript, 2-tuple, a|b} and random "
+        "deeper ones (model + oracle: only quoting changes, no forward reference left quoted, Literal arguments verbatim); the "
+        "decorator loop on every single decorator of 30 spellings x {module, class, inner}, every ordered pair in a class and "
+        "random longer lists (object made, its name, kind, overload flag, name shown after `def`). "
+        "Non-trivial = at least two different parameter kinds or a default after a positional-only marker (signature streams); "
+        "a string under a subscript/attribute (unstring); a decorated method (decorators).")
 ASSUMPTIONS = [
-    "defaults and annotation expressions are opaque atoms in the model; their own rendering is property C15 (the generators use "
-    "atoms and small expressions that avoid C15's known findings: right-nested same-precedence operators, one-element tuples, "
-    "huge floats, NUL in strings)",
+    "defaults and the string-free leaves of annotations are opaque atoms in the model; their own rendering is property C15 (the "
+    "generators use atoms and small expressions; the corpus adds operator shapes judged by the direct oracle only)",
     "parameter names are identifiers (guaranteed by CPython's parser), so Parameter.__init__ never raises",
     "a `def` with duplicate parameter names is accepted by ast.parse but rejected by the compiler: it is not a function definition "
-    "in the property's sense; the model's theorem `valid_iff_nodup` shows it is the only way into the ValueError branch",
+    "in the property's sense; `valid_iff_nodup` shows it is the only way into the ValueError branch; `build_shape` / "
+    "`default_alignment_parser` hold without the distinct-names hypothesis",
     "the model's parser does not accept a trailing comma (never produced by inspect.Signature.__str__)",
-    "in the model a definition's `isOverload` flag is about the decorator's RESOLVED name; the harness computes it from the source by "
-    "Python's import rules (own resolver, independent of pydoctor's expandName), for every spelling of the decorator",
+    "name RESOLUTION of a decorator (parent.expandName) is a parameter of the model (flag `resolvesToOverload` / `isOverload`): the "
+    "harness computes it from the source by Python's import rules (own resolver, independent of pydoctor), for every spelling; "
+    "what the decorator loop decides with it is modelled and proved (`overload_by_resolution`)",
     "`from typing import *` followed by a bare `@overload` is not generated: pydoctor cannot see through a star import of a module "
     "outside the documented system (name resolution, C04's subject), the defs become plain redefinitions",
+    "ast.NodeTransformer's in-place behaviour (single children assigned one by one, lists assigned at the end) is transcribed in "
+    "`AnnE.visit` and tied by the `unstring` stream; annotation nodes other than Name/Attribute/Subscript/2-Tuple/BitOr/Constant "
+    "are opaque atoms when string-free and are not generated with strings inside",
+    "html2stan / flatten_text (HTML of the signature -> text) are seen through their output only (C10); `str(signature)` raising is the "
+    "parameter `strRaises` of `formatSignatureX`, exercised by the `fallback` stream",
 ]
 EXPLANATION = ("Theorems: for every ast.arguments-shaped input with the parser's shape and distinct names, CPython's reading of "
                "Signature.__str__'s layout of the parameters pydoctor builds is the source's ast.arguments (annotations unquoted, "
-               "`-> None` dropped). The correspondence ties build/render to pydoctor+inspect and parse to CPython's parser; "
-               "the direct oracle is CPython's parser on the real displayed text.")
+               "`-> None` dropped); unstring_annotation changes nothing but quoting and keeps Literal arguments; which defs get a "
+               "signature and which are overloads depends on resolved decorator names only; every overload record and every shown "
+               "signature is the own signature of a def of that name. The correspondence ties build/render/unstring/decorator loop/"
+               "format_* to pydoctor+inspect and parse to CPython's parser; the direct oracle is CPython's parser on the real "
+               "displayed text.")
 
 KINDS = {0: "PO", 1: "PK", 2: "VP", 3: "KO", 4: "VK"}
 
@@ -1358,6 +1389,38 @@ def replay(ctx: Ctx, obj) -> int:
         except SyntaxError as e:
             print("cpython: SyntaxError", e)
         print("model  :", ctx.driver.run(["signature read " + " ".join(toks)])[0])
+        return 0
+    if isinstance(inp, dict) and inp.get("kind") == "unstring":
+        from pydoctor import astutils
+        system = build_system("x = 1\n")
+        node = ast.parse(inp["text"], mode="eval").body
+        code = enc_ann(node)
+        with Reports() as rep:
+            res = astutils.unstring_annotation(ast.parse(inp["text"], mode="eval").body, system.allobjects["m"])
+        print("text   :", inp["text"])
+        print("impl   :", ast.unparse(res), "|", enc_ann(res), "|", [d for _, d in rep.seen])
+        print("model  :", ctx.driver.run(["signature unstring " + code])[0])
+        return 0
+    if isinstance(inp, dict) and inp.get("kind") == "corpus":
+        n0 = len(ctx.failures)
+        check_module_by_oracle(ctx, inp.get("id", "replay"), inp["source"])
+        print(inp["source"])
+        for f in ctx.failures[n0:]:
+            print("oracle :", f["signature"], "-", f["what"])
+        if len(ctx.failures) == n0:
+            print("oracle : property holds on this input")
+        return 1 if len(ctx.failures) > n0 else 0
+    if isinstance(inp, dict) and inp.get("kind") == "decorators":
+        src = DECO_HEADER + {"m": "", "c": "class K:\n", "f": "def outer():\n"}[inp["parent"]]
+        ind = "" if inp["parent"] == "m" else "    "
+        src += "".join(ind + "@" + d + "\n" for d in inp["decorators"]) + ind + "def h(a, /, b=1): ...\n"
+        print(src)
+        system = build_system(src)
+        for n, o in system.allobjects.items():
+            if n not in ("m", "m.K", "m.outer"):
+                print("impl   :", n, type(o).__name__, getattr(o, "kind", None), "overloads=%d" % len(getattr(o, "overloads", [])))
+        from ..core import enc
+        print("model  :", ctx.driver.run([("signature decos %s %s %s" % (inp["parent"], enc("h"), " ".join(deco_token(d, src) for d in inp["decorators"]))).rstrip()])[0])
         return 0
     if isinstance(inp, dict) and inp.get("kind") == "overloads":
         from pydoctor import model
